@@ -22,9 +22,7 @@ impl<S: Storage> SystemTableScan<S> {
             .catalog
             .get_table(&self.table_id)
             .expect("table not found");
-        assert_eq!(self.columns.len(), table.all_columns().len());
-
-        yield match table.name() {
+        let chunk = match table.name() {
             "contributors" => contributors(),
             "pg_tables" => pg_tables(self.catalog),
             "pg_indexes" => pg_indexes(self.catalog),
@@ -32,6 +30,16 @@ impl<S: Storage> SystemTableScan<S> {
             "pg_stat" => pg_stat(self.catalog, &*self.storage).await?,
             name => panic!("unknown system table: {:?}", name),
         };
+        assert_eq!(chunk.column_count(), table.all_columns().len());
+
+        // the scan may ask for any subset of the columns (column pruning), in any order
+        if self.columns.is_empty() {
+            yield DataChunk::no_column(chunk.cardinality());
+        } else {
+            yield (self.columns.iter())
+                .map(|c| chunk.array_at(c.column_id as usize).clone())
+                .collect();
+        }
     }
 }
 
